@@ -1,0 +1,24 @@
+//go:build verif
+
+package sugardb
+
+import (
+	"context"
+
+	"github.com/echovault/sugardb/internal/clock"
+)
+
+// WithVerifClock is an option for NewSugarDB that replaces the server clock.
+// It only exists in builds with the "verif" tag and is used by the verification harness.
+func WithVerifClock(c clock.Clock) func(sugarDB *SugarDB) {
+	return func(sugarDB *SugarDB) {
+		sugarDB.clock = c
+	}
+}
+
+// VerifRunExpirySampler runs one pass of the background expiry sampler for the given database,
+// exactly as the eviction ticker would.
+func (server *SugarDB) VerifRunExpirySampler(database int) error {
+	ctx := context.WithValue(context.Background(), "Database", database)
+	return server.evictKeysWithExpiredTTL(ctx)
+}
